@@ -71,10 +71,13 @@ template<class T> struct Machine : IMachine {
     if (o == "r.slice") { Range<T> x(val(t[1]), val(t[2])), r(val(t[3]), val(t[4])); x.sliceWith(r); return num(x.begin()) + " " + num(x.end()); }
     if (o == "r.shift") {
       Range<T> x(val(t[1]), val(t[2])); T v = val(t[3]);
-      Range<T> y = x + v; Range<T> z = y - v;      // operator+ / operator-
-      Range<T> u(x); u -= v; Range<T> w(u); w += v; // operator-= / operator+=
+      Range<T> y = x + v; Range<T> z = y - v;      // operator+ then operator-
+      Range<T> u = x - v; Range<T> w = u + v;      // operator- then operator+ (unsigned: wraps below zero)
+      Range<T> p(x); p += v; p -= v;               // operator+= then operator-=
+      Range<T> q(x); q -= v; T ql = q.length(); q += v;
       return num(y.begin()) + " " + num(y.end()) + " " + num(y.length()) + " " + num(z.begin()) + " " + num(z.end())
-        + " " + num(u.length()) + " " + num(w.begin()) + " " + num(w.end());
+        + " " + num(u.length()) + " " + num(w.begin()) + " " + num(w.end())
+        + " " + num(p.begin()) + " " + num(p.end()) + " " + num(ql) + " " + num(q.begin()) + " " + num(q.end());
     }
     if (o == "r.ctor") {
       Range<T> d; Range<T> one(val(t[1]));
